@@ -133,6 +133,9 @@ type gen struct {
 	U        *thor.Address // universal contract (after deployment)
 	U2       *thor.Address // second instance, to be self-destructed to a third party
 	SDS      *thor.Address // ADDRESS SELFDESTRUCT contract (finding F3)
+	UZ       *thor.Address // U instance holding VTHO but ZERO VET, self-destructed to a third party
+	UV       *thor.Address // U instance holding VET but never given VTHO, self-destructed to the tx origin
+	US       *thor.Address // "sleeper" U instance: holds VET, untouched from block 1 until well after HAYABUSA, then forwards VET
 	stats    map[string]int
 	gasLimit uint64
 }
@@ -237,6 +240,11 @@ func w(n int64) *big.Int { return big.NewInt(n) }
 
 // Dev roles: 0..2 validators (0 is also the executor), 3 deployer/master, 4 F3 caller, 5 credit user, 6 sponsor,
 // 7 delegated-fee origin (fees paid by 3) / extra staker, 8 "delegator contract" stand-in (PoS), 9 spare.
+// sleeper i: a key-less account that receives VET before HAYABUSA and is not touched again until well after it
+func sleeper(i int) thor.Address {
+	return thor.BytesToAddress(thor.Blake2b([]byte(fmt.Sprint("sleeper", i))).Bytes())
+}
+
 func (g *gen) blockTxs(parent *chain.BlockSummary, step int, full bool) []*tx.Transaction {
 	var txs []*tx.Transaction
 	add := func(kind string, t *tx.Transaction) { txs = append(txs, t); g.stats[kind]++ }
@@ -247,16 +255,21 @@ func (g *gen) blockTxs(parent *chain.BlockSummary, step int, full bool) []*tx.Tr
 		add("create", g.mk(parent, 3, txOpt{gas: 1_500_000, delegator: -1}, tx.NewClause(nil).WithData(sim.InitCode(sim.UCode(), w(1), w(2)))))
 		add("create", g.mk(parent, 4, txOpt{gas: 300_000, delegator: -1}, tx.NewClause(nil).WithData(sim.InitCode(sim.SelfDestructSelfCode(), nil, nil))))
 		add("create", g.mk(parent, 9, txOpt{gas: 1_500_000, delegator: -1}, tx.NewClause(nil).WithValue(vet(3)).WithData(sim.InitCode(sim.UCode(), nil, nil))))
+		add("create", g.mk(parent, 5, txOpt{gas: 1_500_000, delegator: -1}, tx.NewClause(nil).WithData(sim.InitCode(sim.UCode(), nil, nil))))
+		add("create", g.mk(parent, 6, txOpt{gas: 1_500_000, delegator: -1}, tx.NewClause(nil).WithValue(vet(2)).WithData(sim.InitCode(sim.UCode(), nil, nil))))
+		add("create", g.mk(parent, 7, txOpt{gas: 1_500_000, delegator: -1}, tx.NewClause(nil).WithValue(vet(50)).WithData(sim.InitCode(sim.UCode(), nil, nil))))
 		return txs
 	case 2:
-		if g.U == nil || g.SDS == nil || g.U2 == nil {
+		if g.U == nil || g.SDS == nil || g.U2 == nil || g.UZ == nil || g.UV == nil || g.US == nil {
 			harnessError("contracts were not deployed in block 1")
 		}
 		add("energy", g.mk(parent, 3, none, call(builtin.Energy.Address, energyData("transfer", *g.U, vet(5000))),
 			call(builtin.Energy.Address, energyData("transfer", *g.SDS, w(777))),
-			call(builtin.Energy.Address, energyData("transfer", *g.U2, w(4242)))))
+			call(builtin.Energy.Address, energyData("transfer", *g.U2, w(4242))),
+			call(builtin.Energy.Address, energyData("transfer", *g.UZ, w(5555)))))
 		add("creditplan", g.mk(parent, 3, none, call(builtin.Prototype.Address, protoData("setCreditPlan", *g.U, vet(2000), w(1_000_000_000_000_000))),
-			call(builtin.Prototype.Address, protoData("addUser", *g.U, g.addr(5)))))
+			call(builtin.Prototype.Address, protoData("addUser", *g.U, g.addr(5))),
+			call(builtin.Prototype.Address, protoData("addUser", *g.U, g.addr(6))))) // the sponsor is also a user: sponsor = origin
 		add("sponsor", g.mk(parent, 6, none, call(builtin.Prototype.Address, protoData("sponsor", *g.U))))
 		return txs
 	case 3:
@@ -264,6 +277,42 @@ func (g *gen) blockTxs(parent *chain.BlockSummary, step int, full bool) []*tx.Tr
 		// finding F3: value sent to a contract that self-destructs naming itself as beneficiary
 		add("f3", g.mk(parent, 4, none, tx.NewClause(g.SDS).WithValue(w(1_000_000+int64(g.rng.Intn(1000))))))
 		return txs
+	}
+	// ---- deterministic shapes (every profile) -------------------------------------------------------------------
+	proposer := step % 3
+	switch {
+	case step == 4:
+		// sleepers receive VET before any fork of the profile and are then left alone
+		var cl []*tx.Clause
+		for i := 0; i < 4; i++ {
+			cl = append(cl, tx.NewClause(ptr(sleeper(i))).WithValue(vet(int64(1000*(i+1)))))
+		}
+		add("sleeper-fund", g.mk(parent, 9, none, cl...))
+	case step == 7 && g.UZ != nil:
+		// zero VET, non-zero VTHO: the energy must reach the beneficiary (dev 8)
+		add("sd-zero-vet", g.mk(parent, 5, none, call(*g.UZ, sim.UCall(sim.OpDestroy, sim.AddrWord(g.addr(8))))))
+		g.UZ = nil
+	case step == 8 && g.UV != nil:
+		// VET but no VTHO given (zero VTHO once growth has stopped); beneficiary = the tx origin = gas payer
+		add("sd-to-origin", g.mk(parent, 6, none, call(*g.UV, sim.UCall(sim.OpDestroy, sim.AddrWord(g.addr(6))))))
+		g.UV = nil
+	case step == 16:
+		// long after the forks: VET to a sleeper (recipient untouched since block 4) and VET OUT of the sleeper contract
+		add("sleeper-wake", g.mk(parent, 9, none, tx.NewClause(ptr(sleeper(0))).WithValue(vet(77))))
+		add("sleeper-forward", g.mk(parent, 4, none, call(*g.US, sim.UCall(sim.OpSend, sim.AddrWord(sleeper(1)), vet(5)))))
+	case step == 22:
+		add("sleeper-wake", g.mk(parent, 9, none, tx.NewClause(ptr(sleeper(2))).WithValue(vet(3))))
+	case step == 30:
+		add("sleeper-wake", g.mk(parent, 4, none, call(*g.U, sim.UCall(sim.OpSend, sim.AddrWord(sleeper(3)), w(12345))).WithValue(w(12345))))
+	case step > 30 && step%40 == 0:
+		// thorough tier: new sleepers keep being created and woken 20 blocks later
+		add("sleeper-fund", g.mk(parent, 9, none, tx.NewClause(ptr(sleeper(step))).WithValue(vet(9))))
+	case step > 60 && step%40 == 20:
+		add("sleeper-wake", g.mk(parent, 4, none, tx.NewClause(ptr(sleeper(step-20))).WithValue(vet(1))))
+	}
+	if step > 8 && step%5 == 0 {
+		// the proposer of this block is the origin and gas payer: payer = beneficiary
+		add("proposer-origin", g.mk(parent, proposer, none, tx.NewClause(ptr(g.addr(9))).WithValue(w(int64(step)))))
 	}
 	if step == 6 && g.U2 != nil {
 		// deterministic: a self-destruct naming a THIRD party as beneficiary (conserving): balance and energy move to dev 8
@@ -276,6 +325,10 @@ func (g *gen) blockTxs(parent *chain.BlockSummary, step int, full bool) []*tx.Tr
 		gas := txOpt{gas: 800_000, delegator: -1}
 		if step == 4 {
 			add("setDelegator", g.mk(parent, 0, gas, call(builtin.Params.Address, paramsData("set", thor.KeyDelegatorContractAddress, new(big.Int).SetBytes(g.addr(8).Bytes())))))
+		}
+		if (g.prof == "pos" && step == 12) || (g.prof == "hayabusa" && step == 20) {
+			// validator 1 names the delegator contract stand-in as its beneficiary: one address in two roles
+			add("setBeneficiary", g.mk(parent, 1, gas, call(builtin.Staker.Address, stakerData("setBeneficiary", g.addr(1), g.addr(8)))))
 		}
 		if (g.prof == "pos" && step == 5) || (g.prof == "hayabusa" && step == 11) {
 			for v := 0; v < 3; v++ {
@@ -296,7 +349,36 @@ func (g *gen) blockTxs(parent *chain.BlockSummary, step int, full bool) []*tx.Tr
 		slot := int64(10 + g.rng.Intn(6))
 		val := w(int64(1 + g.rng.Intn(1_000_000)))
 		who := 3 + g.rng.Intn(7)
-		switch g.rng.Intn(16) {
+		switch g.rng.Intn(22) {
+		case 16: // same address in two roles / degenerate amounts
+			switch g.rng.Intn(7) {
+			case 0:
+				add("vet-self", g.mk(parent, who, none, tx.NewClause(ptr(g.addr(who))).WithValue(val)))
+			case 1:
+				add("vet-zero", g.mk(parent, who, none, tx.NewClause(ptr(g.addr(g.rng.Intn(10))))))
+			case 2:
+				add("energy-self", g.mk(parent, who, none, call(builtin.Energy.Address, energyData("transfer", g.addr(who), val))))
+			case 3:
+				add("energy-zero", g.mk(parent, who, none, call(builtin.Energy.Address, energyData("transfer", g.addr(g.rng.Intn(10)), w(0)))))
+			case 4:
+				add("energy-to-energy", g.mk(parent, who, none, call(builtin.Energy.Address, energyData("transfer", builtin.Energy.Address, val))))
+			case 5:
+				add("vet-to-builtin", g.mk(parent, who, none, tx.NewClause(&builtin.Energy.Address).WithValue(val)))
+			case 6:
+				add("energy-to-beneficiary", g.mk(parent, who, none, call(builtin.Energy.Address, energyData("transfer", g.addr(proposer), val))))
+			}
+		case 17:
+			add("delegated-self", g.mk(parent, 7, txOpt{delegator: 7}, tx.NewClause(ptr(g.addr(2))).WithValue(val)))
+		case 18: // the sponsor itself is the user: sponsor = origin (or U pays when it is not sponsoring)
+			add("sponsor-is-origin", g.mk(parent, 6, none, call(*g.U, sim.UCall(sim.OpStore, w(slot), val))))
+		case 19: // value to the beneficiary of this block / from the proposer
+			add("vet-to-beneficiary", g.mk(parent, who, none, tx.NewClause(ptr(g.addr(proposer))).WithValue(val)))
+		case 20: // U forwards value to the payer of the tx and energy to the block beneficiary
+			add("forward-to-origin", g.mk(parent, who, txOpt{gas: 400_000, delegator: -1},
+				call(*g.U, sim.UCall(sim.OpSend, sim.AddrWord(g.addr(who)), val)).WithValue(val),
+				call(*g.U, sim.UCall(sim.OpEnergy, sim.AddrWord(g.addr(proposer)), val))))
+		case 21: // a create whose constructor reverts, with value attached
+			add("create-revert", g.mk(parent, who, txOpt{gas: 200_000, delegator: -1}, tx.NewClause(nil).WithValue(val).WithData(sim.RevertingInitCode(w(slot), val))))
 		case 0:
 			add("vet", g.mk(parent, who, none, tx.NewClause(ptr(g.addr(g.rng.Intn(10)))).WithValue(new(big.Int).Mul(val, big.NewInt(1e12)))))
 		case 1: // to a brand-new address
@@ -560,11 +642,24 @@ func runProfile(prof string, seed int64, blocks int, evs *[]trace.Ev) runStat {
 			}
 		}
 		who := i % 3
-		blk, receipts, refused, err := n.MintLoose(parent.Header.ID(), who, false, 0, txs...)
+		// the packer's beneficiary option: usually the validator; sometimes a frequent gas payer (dev 3), the delegator
+		// contract stand-in (dev 8), the energy contract or the universal contract (one address in two roles)
+		var benef *thor.Address
+		switch {
+		case i > 8 && i%11 == 3:
+			benef = ptr(g.addr(3))
+		case i > 8 && i%11 == 6:
+			benef = ptr(g.addr(8))
+		case i > 8 && i%11 == 9:
+			benef = ptr(builtin.Energy.Address)
+		case i > 8 && i%11 == 1 && g.U != nil:
+			benef = g.U
+		}
+		blk, receipts, refused, err := n.MintLooseTo(parent.Header.ID(), who, benef, false, 0, txs...)
 		if err != nil {
 			// the chosen validator may have no slot (PoS activation): try the others
 			for alt := 1; alt < 3 && err != nil; alt++ {
-				blk, receipts, refused, err = n.MintLoose(parent.Header.ID(), (who+alt)%3, false, 0, txs...)
+				blk, receipts, refused, err = n.MintLooseTo(parent.Header.ID(), (who+alt)%3, benef, false, 0, txs...)
 			}
 			if err != nil {
 				harnessError("%s block %d: mint: %v", prof, i, err)
@@ -584,6 +679,12 @@ func runProfile(prof string, seed int64, blocks int, evs *[]trace.Ev) runStat {
 					g.SDS = &a
 				case 2:
 					g.U2 = &a
+				case 3:
+					g.UZ = &a
+				case 4:
+					g.UV = &a
+				case 5:
+					g.US = &a
 				}
 			}
 		}
